@@ -301,11 +301,19 @@ func lz4Prefix(f *ssa.Function, intFn, lzFn string) string {
 		if callee.Name() == intFn && strings.Contains(callee.String(), "binary") {
 			a := c.Common().Args
 			end = byteOrderOf(a[0])
-			if sl, ok := a[1].(*ssa.Slice); ok {
-				lo, _ := constInt(sl.Low)
-				hi, _ := constInt(sl.High)
-				pre = fmt.Sprintf("[%d:%d]", lo, hi)
+			sl, ok := a[1].(*ssa.Slice)
+			if !ok || sl.High == nil {
+				continue
 			}
+			hi, hok := constInt(sl.High)
+			lo, lok := int64(0), true
+			if sl.Low != nil {
+				lo, lok = constInt(sl.Low)
+			}
+			if !hok || !lok {
+				continue // not a fixed-position prefix (e.g. a trailer read at len-4)
+			}
+			pre = fmt.Sprintf("[%d:%d]", lo, hi)
 		}
 		if callee.Name() == lzFn && strings.Contains(callee.String(), "lz4") {
 			for _, a := range c.Common().Args {
@@ -405,6 +413,12 @@ func ruleR15_4(r *Run) {
 	for _, b := range f.Blocks {
 		for _, in := range b.Instrs {
 			if ta, ok := in.(*ssa.TypeAssert); ok {
+				// values handed back by a sync.Pool are the program's own, not decoded input
+				if c, isCall := ta.X.(*ssa.Call); isCall {
+					if callee := c.Call.StaticCallee(); callee != nil && callee.Pkg != nil && callee.Pkg.Pkg.Path() == "sync" {
+						continue
+					}
+				}
 				nta++
 				if !ta.CommaOk {
 					bad = w.pos(ta.Pos())
@@ -471,7 +485,10 @@ func ruleR15_4(r *Run) {
 	for _, c := range calls(f) {
 		callee := c.Common().StaticCallee()
 		if callee != nil && callee.Name() == "Uint32" && strings.Contains(callee.String(), "binary") {
-			prefix, _ = c.(ssa.Value)
+			// the LZ4 length prefix is read from a fixed position at the start of the value
+			if lo, hi, _, ok := sliceRegion(c.Common().Args[len(c.Common().Args)-1]); ok && lo == 0 && hi == 4 {
+				prefix, _ = c.(ssa.Value)
+			}
 		}
 	}
 	if prefix == nil {
@@ -513,4 +530,174 @@ func sameErrValue(a, e ssa.Value) bool {
 		}
 	}
 	return false
+}
+
+// ---------------------------------------------------------------------------------------------
+// R15.5: integrity checks cannot be side-stepped
+
+func init() {
+	register(ruleDef{ID: "R15.5", Prop: "C15", Tier: "quick", Floor: 3,
+		Title: "no format loses its integrity check: the requested checksum is dropped at write time only for the compression that carries its own (gzip); a gzip stream is read to its end (where its checksum is verified); a buffer handed back to a pool is never returned to the caller",
+		Fn:    ruleR15_5})
+}
+
+func ruleR15_5(r *Run) {
+	w := r.W
+	const gzipConst = 2
+	// (a) writers: a store of NoChecksum (0) into the checksum parameter is guarded only by format == Gzip
+	n := 0
+	for _, name := range []string{"SerializePrecompressedData", "SerializeData"} {
+		f := w.fn("dvid", name)
+		if f == nil {
+			continue
+		}
+		// the checksum parameter may be re-assigned: as a phi of (param, const) or a store to its spill
+		var guards []*ssa.If
+		for _, b := range f.Blocks {
+			for _, in := range b.Instrs {
+				var val ssa.Value
+				var at ssa.Instruction
+				switch x := in.(type) {
+				case *ssa.Phi:
+					if !typeIs(x.Type(), "dvid", "Checksum") {
+						continue
+					}
+					for i, e := range x.Edges {
+						if c, ok := e.(*ssa.Const); ok && c.Value != nil && c.Value.String() == "0" {
+							// the predecessor block through which the constant arrives
+							pred := b.Preds[i]
+							val, at = e, pred.Instrs[len(pred.Instrs)-1]
+						}
+					}
+				case *ssa.Store:
+					if c, ok := x.Val.(*ssa.Const); ok && typeIs(c.Type(), "dvid", "Checksum") && c.Value != nil && c.Value.String() == "0" {
+						val, at = x.Val, x
+					}
+				}
+				if val == nil {
+					continue
+				}
+				n++
+				// every If whose true edge guards `at`
+				okG := false
+				bad := ""
+				for _, b2 := range f.Blocks {
+					ifi, ok := b2.Instrs[len(b2.Instrs)-1].(*ssa.If)
+					if !ok {
+						continue
+					}
+					inThen := guardedByEdge(ifi, 0, at) || (at.Block() == b2.Succs[0] && len(b2.Succs[0].Preds) == 1)
+					if !inThen {
+						continue
+					}
+					guards = append(guards, ifi)
+					bo, ok := ifi.Cond.(*ssa.BinOp)
+					if ok && bo.Op == token.EQL {
+						if k, isK := constInt(bo.Y); isK && k == gzipConst {
+							okG = true
+							continue
+						}
+					}
+					bad = w.pos(ifi.Pos())
+				}
+				r.check(okG && bad == "", "dvid."+name+":checksum-dropped-only-for-gzip", "the requested checksum is replaced by NoChecksum only under format == Gzip",
+					"the requested checksum is dropped for a compression other than gzip (the only one with its own integrity check): values of that format are stored and read back with no corruption detection at all", firstNonEmpty(bad, w.fpos(f)))
+			}
+		}
+	}
+	des := w.fn("dvid", "DeserializeData")
+	if des == nil {
+		r.violation("dvid.DeserializeData", "not found", "-")
+		return
+	}
+	// (b) gzip readers are drained by a read-to-EOF function
+	for _, c := range calls(des) {
+		callee := c.Common().StaticCallee()
+		if callee == nil || callee.Name() != "NewReader" || callee.Pkg == nil || callee.Pkg.Pkg.Path() != "compress/gzip" {
+			continue
+		}
+		n++
+		cv := c.(*ssa.Call)
+		var rd ssa.Value
+		for _, ref := range *cv.Referrers() {
+			if ex, ok := ref.(*ssa.Extract); ok && ex.Index == 0 {
+				rd = ex
+			}
+		}
+		drained, partial := false, ""
+		if rd != nil {
+			var uses []ssa.Instruction
+			var walk func(v ssa.Value, d int)
+			walk = func(v ssa.Value, d int) {
+				if d > 4 || v.Referrers() == nil {
+					return
+				}
+				for _, ref := range *v.Referrers() {
+					switch x := ref.(type) {
+					case *ssa.MakeInterface:
+						walk(x, d+1)
+					case *ssa.ChangeInterface:
+						walk(x, d+1)
+					case ssa.CallInstruction:
+						uses = append(uses, x)
+					}
+				}
+			}
+			walk(rd, 0)
+			for _, u := range uses {
+				uc := u.(ssa.CallInstruction)
+				cal := uc.Common().StaticCallee()
+				nm := callName(uc)
+				switch {
+				case cal != nil && cal.Pkg != nil && (cal.Pkg.Pkg.Path() == "io" || cal.Pkg.Pkg.Path() == "io/ioutil") && (nm == "Copy" || nm == "ReadAll"):
+					drained = true
+				case nm == "Close":
+				case nm == "ReadFull" || nm == "Read" || nm == "ReadAtLeast" || nm == "CopyN":
+					partial = w.pos(uc.Pos())
+				}
+			}
+		}
+		r.check(drained && partial == "", "dvid.DeserializeData:gzip-read-to-end", "the gzip stream is consumed by a read-to-EOF function",
+			"the gzip stream is read with a bounded read: gzip verifies its CRC only when the reader reaches the end of the stream, so a corrupted value that inflates to the expected length is returned without error", firstNonEmpty(partial, w.pos(c.Pos())))
+	}
+	// (c) no returned slice aliases a buffer put back into a sync.Pool
+	for _, f := range []*ssa.Function{des, w.fn("dvid", "SerializeData"), w.fn("dvid", "SerializePrecompressedData")} {
+		if f == nil {
+			continue
+		}
+		var pooled []ssa.Value
+		for _, g := range withClosures(f) {
+			for _, c := range calls(g) {
+				if cal := c.Common().StaticCallee(); cal != nil && cal.Pkg != nil && cal.Pkg.Pkg.Path() == "sync" && cal.Name() == "Put" && len(c.Common().Args) == 2 {
+					for _, rt := range roots(c.Common().Args[1], g) {
+						pooled = append(pooled, peelAssert(rt.V))
+					}
+				}
+			}
+		}
+		n++
+		bad := ""
+		if len(pooled) > 0 {
+			for _, b := range f.Blocks {
+				ret, ok := b.Instrs[len(b.Instrs)-1].(*ssa.Return)
+				if !ok || len(ret.Results) == 0 {
+					continue
+				}
+				for _, rt := range roots(ret.Results[0], f) {
+					if c, ok := rt.V.(*ssa.Call); ok && callName(c) == "Bytes" {
+						for _, r2 := range roots(recvOfCall(c), f) {
+							for _, p := range pooled {
+								if peelAssert(r2.V) == p {
+									bad = w.pos(ret.Pos())
+								}
+							}
+						}
+					}
+				}
+			}
+		}
+		r.check(bad == "", "dvid."+f.Name()+":result-not-aliasing-pooled-buffer", "no returned slice is backed by a buffer handed back to a pool",
+			"the returned bytes are backed by a buffer that the function puts back into a sync.Pool: the next call overwrites a value already handed to the caller", firstNonEmpty(bad, w.fpos(f)))
+	}
+	r.check(n >= 3, "dvid:integrity-paths", fmt.Sprintf("%d integrity-relevant sites examined", n), "sites not found", "-")
 }
